@@ -76,8 +76,18 @@ def check_c07(d):
   # error cells compared as "an error": a formula that reads an error cell of another column reports a
   # different exception class once that cell has been through encode/decode (the stored error no longer
   # carries the live exception object)
-  r = F.snap_diff(_blur_errors(F.snap(e3)), _blur_errors(F.snap(d.e)))
+  # Data columns (incl. trigger-formula columns, whose error cells are stored) must come back exactly.
+  r = F.snap_diff(_blur_formula_errors(F.snap(e3), d.e), _blur_formula_errors(F.snap(d.e), d.e))
   return ("reloaded engine reports different data: " + r) if r else None
+
+
+def _blur_formula_errors(view, e):
+  out = {}
+  for t, (rows, cols) in view.items():
+    sc = e.schema[t].columns if t in e.schema else {}
+    out[t] = (rows, {c: ([["E"] if (isinstance(v, list) and v and v[0] == "E") else v for v in vs]
+                         if (c in sc and sc[c].isFormula) else vs) for c, vs in cols.items()})
+  return out
 
 
 def run_history(d, uas, want, perm=None, base=None):
@@ -159,6 +169,11 @@ def run_history_c06(base, d, applied, perm):
   r = F.snap_diff(_blur_errors(formula_view(Dv(d2.e, d))), _blur_errors(formula_view(d)))
   if r:
     out.append(("C06", "evaluation order %d changes results: %s" % (perm, r)))
+  # "the stored actions differ at most in order": under either order the stored actions carry every change, i.e.
+  # replayed into the independent interpreter (TableDataSet) they reproduce the respective engine's state
+  r = F.check_replica(d2)
+  if r:
+    out.append(("C06", "evaluation order %d: stored actions do not carry all changes: %s" % (perm, r)))
   return None, out
 
 
@@ -191,7 +206,7 @@ def plan(pid, tier):
   if tier == "quick":
     fx1 = {"C05": [("lookup", "small"), ("basic", "small"), ("summary", "small"), ("twoway", "small"), ("cycles", "small")],
            "C06": [("cycles", "small"), ("basic", "tiny")],
-           "C07": [("types", "med"), ("basic", "small"), ("summary", "small"), ("twoway", "small"), ("trigger", "small")]}[pid]
+           "C07": [("types", "med"), ("basic", "small"), ("summary", "small"), ("twoway", "small"), ("trigger2", "small")]}[pid]
     for fx, size in fx1:
       for k in F.ALL_KINDS:
         shards.append((fx, k, 1, size, size, None))
@@ -202,7 +217,7 @@ def plan(pid, tier):
         pairs.append((fx2, k + "+" + k2, 2, "micro", "micro", 6.0 if pid == "C06" else 20.0))
     shards = pairs + shards
   else:
-    for fx in ("lookup", "basic", "summary", "twoway", "cycles", "types", "trigger", "views"):
+    for fx in ("lookup", "basic", "summary", "twoway", "cycles", "types", "trigger", "trigger2", "cascade", "views"):
       for k in F.ALL_KINDS:
         shards.append((fx, k, 1, "full", "full", None))
         for k2 in EDIT_KINDS:
@@ -238,7 +253,9 @@ ORACLE = {
          "reported metadata and data columns but no stored formula results computes, for every formula column of every user "
          "table, the same encoded values as the incrementally maintained engine",
   "C06": "the same history applied to a second engine whose Engine._make_sorted_work_items result is permuted (k-th permutation "
-         "of the non-lookup work items, lookup indexes kept first) yields the same user tables",
+         "of the non-lookup work items, lookup indexes kept first) yields the same formula-column values, and the stored actions "
+         "emitted under that order, replayed into the independent TableDataSet interpreter, reproduce that engine's state "
+         "(stored actions differ at most in order)",
   "C07": "fetch_table of every table -> encode -> marshal -> main._decode_db_value -> fresh engine load + Calculate: no stored "
          "actions, identical snapshot of all tables",
 }
